@@ -1196,16 +1196,21 @@ func (c *Cluster) fameByModel(store hg.Store, isWitness func(string) bool, x str
 			if debugTrace {
 				fmt.Fprintf(os.Stderr, "  fame model: x=%s r=%d j=%d y=%s (creator n%d) yays=%d nays=%d |Vj|=%d |Vj-1|=%d prev=%d\n", short(x), r, j, short(y), c.byPub[c.dag.events[y].Creator].idx, yays, nays, len(Vj), len(Vp), len(prev))
 			}
+			// votes are cast by round j-1: more than two thirds of its set as well
+			need := superMajority(len(Vj))
+			if p := superMajority(len(Vp)); p > need {
+				need = p
+			}
 			if diff%coin != 0 {
 				votes[y] = vv
-				if t >= superMajority(len(Vj)) {
+				if t >= need {
 					if decided && v != vv {
 						// two deciders of one round disagree: cannot happen in a fork-free DAG
 						return false, false, false, "", j
 					}
 					decided, v, by = true, vv, y
 				}
-			} else if t >= superMajority(len(Vj)) {
+			} else if t >= need {
 				votes[y] = vv
 			} else {
 				votes[y] = refMiddleBit(y)
